@@ -71,8 +71,11 @@ Lemma int_cmp_refl a : int_cmp a a = 0%Z.
 Proof. unfold int_cmp. rewrite Z.ltb_irrefl. reflexivity. Qed.
 
 Section Main.
-  Variables (m r seed : N) (tl : bool).
-  Notation H := (v_hash m r seed true).
+  Variable hd : list N -> N.          (* the byte hash: any function of the bytes *)
+  Variable tl : bool.
+  Variable fs : nat.                   (* shape of Float_Hash *)
+  Hypothesis Hfs : fh_normalising fs = true.
+  Notation H := (v_hash hd fs).
   Notation C := (v_cmp tl).
 
   Lemma v_cmp_scalar a b : scalar a = true -> C a b = s_cmp a b.
@@ -165,10 +168,13 @@ Section Main.
     | _ => k
     end.
 
-  Lemma hash_knorm k : H (knorm k) = H k.
+  Lemma hash_knorm k : v_wf k = true -> H (knorm k) = H k.
   Proof.
-    destruct k; try reflexivity. cbn [knorm v_hash]. unfold float_hash. simpl.
-    destruct (f_is_zero bits) eqn:Z; [reflexivity|]. rewrite Z. reflexivity.
+    destruct k; try reflexivity. intros W. apply wf_float in W. destruct W as [W _]. cbn [knorm v_hash].
+    rewrite (float_hash_norm fs bits Hfs W).
+    destruct (f_is_zero bits) eqn:Z.
+    - rewrite (float_hash_norm fs 0 Hfs eq_refl). reflexivity.
+    - rewrite (float_hash_norm fs bits Hfs W), Z. reflexivity.
   Qed.
 
   Lemma le_word_split : forall n p, le_word (le_split n p) = (p mod 256 ^ N.of_nat n)%N.
@@ -281,13 +287,15 @@ Section Main.
   Qed.
 
   (* two association lists with matching keys and hash-equal values have the same XOR *)
-  Lemma match_hash : forall mp mp', NoDup (nkeys mp) -> NoDup (nkeys mp') -> length mp = length mp' ->
+  Lemma match_hash : forall mp mp', kwf mp -> kwf mp' ->
+    NoDup (nkeys mp) -> NoDup (nkeys mp') -> length mp = length mp' ->
     (forall k v, In (k, v) mp -> exists k' v', In (k', v') mp' /\ knorm k' = knorm k /\ H v = H v') ->
     mh mp = mh mp'.
   Proof.
-    induction mp as [|[k v] rest IH]; intros mp' ND ND' L M.
+    induction mp as [|[k v] rest IH]; intros mp' Kw Kw' ND ND' L M.
     - destruct mp'; [reflexivity|discriminate].
     - destruct (M k v (or_introl eq_refl)) as [k' [v' [I [Nk Hv]]]].
+      destruct (kwf_in _ _ Kw (or_introl eq_refl)) as [_ Wk]. destruct (kwf_in _ _ Kw' I) as [_ Wk']. simpl in Wk, Wk'.
       destruct (in_split _ _ I) as [l1 [l2 ->]].
       simpl in ND. inversion ND as [|? ? Nin NDr]; subst.
       unfold nkeys in ND'. rewrite map_app in ND'. simpl in ND'.
@@ -295,6 +303,8 @@ Section Main.
       rewrite <- map_app in ND'', Nk'.
       assert (E : mh rest = mh (l1 ++ l2)).
       { apply IH; auto.
+        - apply (Forall_inv_tail Kw).
+        - unfold kwf in *. rewrite Forall_app in *. destruct Kw' as [K1 K2]. split; [exact K1|apply (Forall_inv_tail K2)].
         - rewrite app_length in *. simpl in L. lia.
         - intros k2 v2 I2. destruct (M k2 v2 (or_intror I2)) as [k2' [v2' [I2' [N2 Hv2]]]].
           exists k2', v2'. split; [|auto].
@@ -302,7 +312,7 @@ Section Main.
           injection E as -> ->. exfalso. apply Nin. rewrite <- Nk, N2.
           apply (in_map (fun kv => knorm (fst kv))) in I2. exact I2. }
       rewrite mh_cons, E, !mh_app, mh_cons. unfold eh. simpl.
-      rewrite Hv, <- (hash_knorm k), <- Nk, hash_knorm.
+      rewrite Hv, <- (hash_knorm k Wk), <- Nk, (hash_knorm k' Wk').
       rewrite !N.lxor_assoc. reflexivity.
   Qed.
 
@@ -544,7 +554,7 @@ End Main.
 (* D5: with the pinned Float_Hash (raw bit pattern) eq does not imply equal hashes *)
 Lemma float_hash_raw_refuted :
   exists a b, v_wf (VFloat a) = true /\ v_wf (VFloat b) = true /\
-              float_cmp a b = 0%Z /\ float_hash false a <> float_hash false b.
+              float_cmp a b = 0%Z /\ float_hash 0 a <> float_hash 0 b.
 Proof.
   exists 0%N, 9223372036854775808%N. vm_compute. repeat split; discriminate.
 Qed.
@@ -650,19 +660,21 @@ Proof.
   nia.
 Qed.
 
-Theorem hash_data_lt m r seed d : (hash_data m r seed d < M64)%N.
+Theorem hash_data_lt m r seed ts d : (hash_data m r seed ts d < M64)%N.
 Proof.
   unfold hash_data. destruct (blocks m r _ _) as [h t]. unfold finish.
   apply lxor_lt_M64; [|apply shiftr_lt_M64]; apply w64_lt.
 Qed.
 
-Theorem v_hash_lt m r seed : forall a, v_wf a = true -> (v_hash m r seed true a < M64)%N.
+Theorem v_hash_lt hd fs : (forall d, (hd d < M64)%N) -> fh_normalising fs = true ->
+  forall a, v_wf a = true -> (v_hash hd fs a < M64)%N.
 Proof.
+  intros Hd Hfs.
   induction a as [z|bts|s|s|p|p|bs|k l IH|k mp IH] using value_ind'; intros W; cbn [v_hash];
-    try apply hash_data_lt.
+    try apply Hd.
   - unfold int_hash. change (Z.of_N M64) with 18446744073709551616%Z.
     pose proof (Z.mod_pos_bound z 18446744073709551616 eq_refl). unfold M64. lia.
-  - apply wf_float in W. destruct W as [W _]. unfold float_hash. destruct (_ && _); [reflexivity|exact W].
+  - apply wf_float in W. destruct W as [W _]. rewrite (float_hash_norm fs bts Hfs W). destruct (f_is_zero bts); [reflexivity|exact W].
   - apply wf_seq in W. induction l as [|x l IHl]; simpl; [reflexivity|].
     inversion IH; inversion W; subst. apply lxor_lt_M64; auto.
   - destruct (wf_map _ _ W) as [_ [_ [Wm _]]]. clear W.
@@ -670,3 +682,64 @@ Proof.
     inversion IH as [|? ? [I1 I2] I3]; inversion Wm as [|? ? [W1 W2] W3]; subst. simpl in *.
     repeat apply lxor_lt_M64; auto.
 Qed.
+
+(* ------------------------------------------------------------------ swap plans read from memswap's text *)
+Lemma memswap_loop_fold : forall fuel i a b,
+  memswap_loop fuel i a b = fold_left swap_at (seq i fuel) (a, b).
+Proof. induction fuel as [|f IH]; intros i a b; simpl; [reflexivity|]. rewrite IH. reflexivity. Qed.
+
+(* guarded, advancing steps that end in a byte loop exchange bytes i, i+1, ..., s-1 in this order *)
+Lemma tail_ok_spec : forall plan, tail_ok plan = true ->
+  forall s i, i <= s -> plan_indices s plan i = seq i (s - i).
+Proof.
+  induction plan as [|[tag w] r IH]; intros Ok s i Hi; [discriminate|].
+  destruct tag as [|[|tag]]; [| |discriminate].
+  - (* while (i + w <= s) *)
+    cbn [plan_indices step_indices].
+    destruct r as [|st r'].
+    + cbn [tail_ok] in Ok. apply Nat.eqb_eq in Ok. subst w.
+      rewrite Nat.div_1_r, Nat.mul_1_r. cbn [plan_indices]. apply app_nil_r.
+    + change (tail_ok ((0, w) :: st :: r')) with ((0 <? w) && tail_ok (st :: r')) in Ok.
+      apply andb_true_iff in Ok. destruct Ok as [Hw Ok]. apply Nat.ltb_lt in Hw.
+      set (n := (s - i) / w).
+      assert (Hn : n * w <= s - i) by (unfold n; rewrite Nat.mul_comm; apply Nat.mul_div_le; lia).
+      rewrite (IH Ok s (i + n * w)) by lia.
+      transitivity (seq i (n * w + (s - (i + n * w)))); [rewrite seq_app; reflexivity | f_equal; lia].
+  - (* if (i + w <= s) { ...; i += w } *)
+    cbn [plan_indices step_indices]. cbn [tail_ok] in Ok.
+    destruct (i + w <=? s) eqn:G.
+    + apply Nat.leb_le in G. rewrite (IH Ok s (i + w)) by lia.
+      transitivity (seq i (w + (s - (i + w)))); [rewrite seq_app; reflexivity | f_equal; lia].
+    + rewrite (IH Ok s i Hi). reflexivity.
+Qed.
+
+(* coverage: every byte index below s is exchanged exactly once, in increasing order *)
+Theorem plan_covers plan : plan_ok plan = true -> forall s, plan_indices s plan 0 = seq 0 s.
+Proof.
+  intros Ok s.
+  assert (T : tail_ok plan = true -> plan_indices s plan 0 = seq 0 s).
+  { intros Ht. rewrite (tail_ok_spec plan Ht s 0) by lia. rewrite Nat.sub_0_r. reflexivity. }
+  destruct plan as [|[t1 w1] [|[t2 w2] [|st3 r]]]; try (apply T; exact Ok).
+  cbn [plan_ok] in Ok. destruct ((t1 =? 3) && (t2 =? 4)) eqn:E34; [|apply T; exact Ok].
+  apply andb_true_iff in E34. destruct E34 as [E3 E4]. apply Nat.eqb_eq in E3, E4. subst t1 t2.
+  (* (3, w); (4, w'): s / w words, then s % w bytes *)
+  apply andb_true_iff in Ok. destruct Ok as [Hw E].
+  apply Nat.ltb_lt in Hw. apply Nat.eqb_eq in E. subst w2.
+  cbn [plan_indices step_indices]. rewrite app_nil_r. simpl plus.
+  rewrite <- seq_app. f_equal.
+  rewrite Nat.mul_comm. symmetry. apply Nat.div_mod. lia.
+Qed.
+
+Theorem plan_exchanges plan : plan_ok plan = true ->
+  forall a b : list N, length a = length b -> run_plan plan (length a) a b = (b, a).
+Proof.
+  intros Ok a b L. unfold run_plan. rewrite (plan_covers plan Ok).
+  rewrite <- memswap_loop_fold. apply (memswap_exchanges a b L).
+Qed.
+
+(* the broken sibling (seeded C04-r5-1: a 4-byte step that does not advance the cursor, so the byte
+   loop exchanges those bytes back) is not accepted and does not exchange *)
+Lemma plan_no_advance_refuted :
+  plan_ok [(0, 8); (2, 4); (0, 1)] = false /\
+  run_plan [(0, 8); (2, 4); (0, 1)] 4 [1; 2; 3; 4]%N [5; 6; 7; 8]%N <> ([5; 6; 7; 8]%N, [1; 2; 3; 4]%N).
+Proof. split; [reflexivity|]. vm_compute. discriminate. Qed.
